@@ -114,13 +114,15 @@ PROPS = {
     "C06": {
         "level": "other",
         "rules": [R.coordinates, R.pairing, R.chunks_skipped, G.pairs_unify, G.sequences, E.decode_errors, T.read_field,
-                  T.header_reader, T.step_codes, T.field_position, T.sequence_reader, T.ref_protocol, T.dedup_strings],
+                  T.header_reader, T.step_codes, T.field_position, T.sequence_reader, T.ref_protocol, T.dedup_strings,
+                  D.validate],
         "thorough": [TH.feature_matrix(G.pairs_unify, G.sequences, E.decode_errors, name="feature_matrix_framing")],
         "explanation": "Framing is honoured structurally: a chunk window bounds the reads made inside it (R3), each field read "
                        "lies inside the window of its own generation and the advanced cursor is written back (R1), chunk windows "
                        "come from skipped sizes (R5), every length / count / tag read governs the bytes that follow (G2), unknown "
                        "tags and ids are errors (G7, T9, T10), arrays are built only from exactly L elements and sequence "
-                       "consumers are exhaustive (G8, G9), errors propagate (E1).",
+                       "consumers are exhaustive (G8, G9), errors propagate (E1); derived readers build one AdtDeserializer per "
+                       "record / constructor and read exactly the declared fields through it (D1/D2).",
         "assumptions": ["not decided: agreement of accepted values with a strict reference decoder on tampered inputs (dynamic)",
                         "the reader's leniencies are those of DESIGN 4.5"],
         "trusted_base": MIR_TB,
@@ -140,13 +142,14 @@ PROPS = {
     },
     "C08": {
         "level": "other",
-        "rules": [P.sources_agree, R.coordinates, R.chunks_skipped, R.no_peeking, E.decode_errors, T.sequence_reader,
-                  T.header_reader, G.pairs_unify, G.sequences, B.varints],
+        "rules": [P.sources_agree, P.input_methods, R.coordinates, R.chunks_skipped, R.no_peeking, E.decode_errors,
+                  T.sequence_reader, T.header_reader, G.pairs_unify, G.sequences, B.varints],
         "thorough": [TH.feature_matrix(E.decode_errors, G.pairs_unify, G.sequences, name="feature_matrix_truncation")],
         "explanation": "By reduction: the decoder reads every byte of the encoding (C07's clauses: G2, G4/G9, R5), every read or "
                        "skip past the end is InputEndedUnexpectedly through one overflow-safe guard (P4) with region ends inside "
                        "the input (R3), no error is swallowed or defaulted (E1), a failed count read or a failed item read in "
-                       "the unknown-size form is an error item, never the end of the sequence (T12); no decoder looks at how much "
+                       "the unknown-size form is an error item, never the end of the sequence (T12); the provided read methods are "
+                       "not overridden by any source (P3); no decoder looks at how much "
                        "input remains, so a count or size is never adapted to a short input (R4); the varint decoder is the "
                        "bit-exact 5-group reader whose every continuation read propagates its error (B4/B5): any strict prefix "
                        "fails at the first read crossing the cut.",
@@ -191,7 +194,7 @@ PROPS = {
     },
     "C12": {
         "level": "other",
-        "rules": [G.sequences, T.sequence_writer, T.sequence_reader, G.pairs_unify, G.writers_conform],
+        "rules": [G.sequences, T.sequence_writer, T.sequence_reader, G.pairs_unify, G.writers_conform, R.no_peeking],
         "thorough": [TH.feature_matrix(G.sequences, G.pairs_unify, name="feature_matrix_sequences")],
         "explanation": "All SEQ writers have one grammar (serialize_iterator or the same layout hand-written) and all byte "
                        "containers one (G4); the four byte containers are pinned to the same FORMAT entry VarU32(len) + bytes (G3); the writer's "
@@ -236,27 +239,33 @@ PROPS = {
     },
     "C16": {
         "level": "other",
-        "rules": [G.compressed_frame, N.alloc_taint, N.narrowing_casts, P.sources_agree, E.decode_errors, E.encode_errors,
-                  E.error_sites, ST.make(["N4", "E1"])],
+        "rules": [G.compressed_frame, N.alloc_taint, N.narrowing_casts, P.sources_agree, P.output_methods, P.input_methods,
+                  E.decode_errors, E.encode_errors, E.error_sites, ST.make(["N4", "E1"])],
         "thorough": [TH.feature_matrix(G.compressed_frame, N.alloc_taint, E.decode_errors, E.encode_errors, name="feature_matrix_compressed")],
         "explanation": "Frame structure on both sides (G10: VarU32 len(input), VarU32 len(deflated), deflated bytes; the reader "
                        "consumes exactly the second length on every successful path; everything is deflated / inflated with "
                        "read_to_end), true lengths through checked conversions (N6), no reservation from the untrusted length "
-                       "(N4), truncated frames are errors (P4, E1), flate2 failures are mapped to De/CompressionFailure (E3).",
+                       "(N4), truncated frames are errors (P4, E1), flate2 failures are mapped to De/CompressionFailure (E3); a frame is "
+                       "refused only because a read failed or the inflater failed, never on its length fields alone (G10); no sink "
+                       "or source overrides the provided compressed / varint methods, so the frame goes through the buffer-aware "
+                       "write_u8 / write_bytes of the context (P1/P3).",
         "assumptions": ["inflate . deflate is the identity for every content and level and flate2/miniz_oxide never panic on "
                         "damaged data (third-party, trusted)"],
         "trusted_base": MIR_TB,
     },
     "C17": {
         "level": "other",
-        "rules": [_n2, N.narrowing_casts, E.encode_errors, E.error_sites, G.char_codec, B.varints, S.fresh_context,
-                  T.header_writer, D.validate],
+        "rules": [_n2, N.narrowing_casts, E.encode_errors, E.error_sites, G.char_codec, G.writers_conform, G.sequences,
+                  T.sequence_writer, B.varints, S.fresh_context, T.header_writer, D.validate],
         "thorough": [TH.generated_corpus, TH.feature_matrix(_n2_matrix, N.narrowing_casts, E.encode_errors, G.char_codec, name="feature_matrix_encode")],
         "explanation": "Every may-panic site reachable from the encode entry points is discharged (N2; D6 certifies the new_v0 "
                        "assertion, R2 the buffer unwraps), lengths are narrowed with try_into()? -> LengthTooLarge (N6), errors "
-                       "propagate (E2) and are constructed where documented: UnsupportedCharacter exactly outside the 16-bit "
+                       "propagate (E2), every length / count prefix has the kind the format prescribes and is the checked "
+                       "conversion of the length into that kind (G3, G4, T13), and errors are constructed where documented: "
+                       "UnsupportedCharacter exactly outside the 16-bit "
                        "range (G11), SerializingTransientConstructor (D3), UnknownFieldReferenceInEvolutionStep (T5); "
-                       "serialize() hands back the output only on the Ok edge (S5).",
+                       "serialize() hands back the output only on the Ok edge (S5); the one documented panic (more than 255 "
+                       "evolution steps, in AdtMetadata::new) is guarded by exactly that limit (N2).",
         "assumptions": [THIRD_PARTY, "declarations beyond the documented limits (> 255 steps, > 255 fields in a chunk) are out of scope"],
         "trusted_base": MIR_TB,
     },
@@ -280,8 +289,9 @@ PROPS = {
         "thorough": [TH.feature_matrix(U.inventory, U.transmutes, U.uninit_apis, U.raw_provenance, name="feature_matrix_unsafe")],
         "explanation": "Closed inventory of unsafe operations (U1) with a typed obligation at each transmute (U2), no "
                        "uninitialised-memory API (U3), a provenance rule for raw pointers that are handed back as references "
-                       "(U4), compiler verdicts on a catalogue of lifetime-escape witnesses with compiling twins (U5/U6), "
-                       "arrays built only from exactly L decoded elements (G8).",
+                       "(U4), no function signature with a lifetime that occurs only in its return type (U7), compiler verdicts on a "
+                       "catalogue of ten lifetime-escape witnesses with compiling twins (U5/U6), arrays built only from exactly "
+                       "L decoded elements (G8).",
         "assumptions": ["soundness of the unsafe code inside castaway, bytes, hashbrown, std is trusted",
                         "client programs are represented by the witness catalogue (U5) and the general U4 rule"],
         "trusted_base": MIR_TB + ["rustc borrow checker (witness verdicts)"],
